@@ -1,16 +1,19 @@
 """C09  Data-definition statements lay down exactly the documented bytes.
 
-Generated domain: programs of 6-40 ORG slots, each holding 1-3 data definition statements of one target
-(68000 DC/DS with PADDING, 6809/6502 BYT/FCB/ADR/FDB/FCC/DFS(+DC/DS on the 6809), Z80/8086/8051 DB..DT/DN with
-nested DUP, ?, BIGENDIAN, MSP430 BYTE/WORD/BSS with PADDING, PIC16C84 DATA/RES/ZERO (14 bit words),
-AVR DATA with PACKING, RES and packed DB/DW/DD/DQ/DT/DN), CHARSET remaps in between.
-Oracle: vf/datamodel.py (written from the manual; int.to_bytes, exact IEEE-754 rounding cross-checked with
-struct, Fraction decode of extended results).  Two assembler runs per case:
-  A  the program without the statements the manual demands an error for: exit 0 and the code file holds
-     exactly the predicted bytes at the predicted addresses (nothing else), the program counter printed
-     after every slot (MESSAGE "\\{*}") is the predicted one (reservations);
-  B  (only if there are such statements) the whole program: an error is reported on exactly those lines,
-     and the program counter after a rejected statement has not moved (no bytes laid down).
+Generated domain: programs of 6-40 ORG slots, each holding 1-3 data definition statements of one target:
+68000 (68010..68040) DC/DS with PADDING; 6809/6309/68xx BYT/FCB/ADR/FDB/FCC/DFS/RMB and DC/DS; 6502 family
+BYT/FCB/ADR/FDB/FCC/DFS; Z80/8086/8051 families DB/DW/DD/DQ/DT/DN with nested DUP, ?, DS, BIGENDIAN; MSP430
+BYTE/WORD/BSS with PADDING; PIC16C84 DATA/RES/ZERO (14 bit words); AVR DATA with PACKING, RES and packed
+DB/DW/DD/DQ/DT/DN; COP8 BYTE/WORD/ADDR/ADDRW/DSB/DSW/FB/FW; TMS320C25 WORD/LONG/FLOAT/DOUBLE/STRING/RSTRING/
+DATA/BSS/RES; CHARSET remaps, symbols defined before and after use, labels on statements in between.
+Oracle: vf/datamodel.py (written from the manual; int.to_bytes with the documented range, exact IEEE-754
+rounding cross-checked with struct.pack, exact Fraction decode of 80 bit results).  Per case:
+  A  the program without the statements the manual demands an error for: exit 0, the code file holds exactly
+     the predicted bytes at the predicted addresses (nothing else), the program counter printed after every
+     slot (MESSAGE "\\{*}") and the labels on data statements have the predicted values (reservations, padding);
+  B  (only if there are such statements) the whole program: an error is reported on exactly those lines, and
+     the program counter after a rejected statement has not moved (nothing laid down);
+  every 4th program is also assembled with the ASan build (no memory error, same bytes).
 """
 import math
 import re
@@ -23,49 +26,63 @@ from vf.datamodel import HALF, SINGLE, DOUBLE, Invalid, Unsettled, Sim, TARGETS
 from vf.gen import composite
 
 ID = "C09"
-RULE = ("case = one target x 6-40 ORG slots of 1-3 data statements (DC/DS, DB..DT/DN+DUP, BYT/FCB/ADR/FDB/FCC/DFS, "
-        "BYTE/WORD/BSS, DATA/RES/ZERO) with PADDING/BIGENDIAN/PACKING/CHARSET directives in between; arguments: "
-        "integers at/around both field limits, floats (target-format values, halfway cases, subnormals, max "
-        "finite, overflow), strings with escapes, multi character constants, [n] repeats, nested DUP, ?; "
-        "non-trivial = a statement with a value at a field limit, a halfway/subnormal/max float, a nested DUP, "
-        "an inserted padding byte, a packed half word, a remapped character or a rejected value; distinct by "
-        "(target, statement, size, feature class, endianness)")
+RULE = ("case = one target (11 families, 30 CPU names) x 6-40 ORG slots of 1-3 data statements (DC/DS, DB..DT/DN+DUP, "
+        "BYT/FCB/ADR/FDB/FCC/DFS, BYTE/WORD/BSS, DATA/RES/ZERO, COP8 and TMS320C25 forms) with PADDING/BIGENDIAN/"
+        "PACKING/CHARSET directives in between, one slot in twenty with a single statement of 300-960 bytes; "
+        "arguments: integers at/around both field limits and values that fit again after truncation, literally "
+        "or through symbols defined before/after use, floats (target-format values, exact ties, subnormals, max "
+        "finite, overflow threshold), strings with all documented escapes, multi character constants, [n] "
+        "repeats, nested DUP, ?; fixed families: every limit of every field width per statement kind, every "
+        "finite half precision value and every tie between neighbours (127 000 values), regression inputs; "
+        "non-trivial = a statement with a value at a field limit, a tie/subnormal/max float, a nested DUP, an "
+        "inserted padding byte, a reservation, a remapped character, a multi character constant, a forward "
+        "symbol or a rejected value; distinct by the set of (target, statement, size, endianness, feature)")
 ASSUMPTIONS = [
-    "words of word-granular targets (PIC16C84, AVR) are stored least significant byte first in the code file "
-    "(file-formats.md: multi-byte values are little endian)",
+    "words of word-granular targets (PIC16C84, AVR, TMS320C25) are stored least significant byte first in the "
+    "code file (file-formats.md: multi-byte values are little endian)",
     "value of a PADDING byte is only checked on the MSP430 (manual: 'padded with a zero byte'); on 68000/6809 "
     "only its presence is required",
     "with PADDING ON an odd program counter at the end of a slot leaves the byte at that address and the "
     "counter (pc or pc+1) unchecked, and a byte-sized statement following an odd-length one in the same slot "
     "ends the checking of that slot: the DC section ('adds another byte if the byte sum becomes odd') and the "
     "PADDING section ('inserted before the 16 bit object') disagree there",
-    "floats above the largest finite value of the format that would still round to it are not generated "
-    "(the manual does not say whether the range check is applied before or after rounding)",
-    "infinities/NaN are not generated: the manual documents no way to write them",
     "the default setting of PADDING is never relied upon: every program for 68000/6809/MSP430 starts with an "
     "explicit PADDING ON/OFF (manual: 'by default only enabled for the 680x0 family'; behaviour and the golden "
     "tests t_msppad/t_avr8: also on for MSP430, 6809, 6805, TMS9900, AVR byte mode)",
     "DC/DS without attribute are only generated for the 68000 (DC section: default W; 6809: natural size B)",
+    "floats above the largest finite value of the format that would still round to it are not generated "
+    "(the manual does not say whether the range check is applied before or after rounding)",
+    "infinities/NaN are not generated: the manual documents no way to write them",
+    "zero in extended precision (DC.X, DT): sign and significand are compared, the exponent field is not (the "
+    "golden images t_dc/t_dx store 0.0 with the exponent of 2^-1023)",
     "64 bit integer fields are only given values -2^63+1 .. 2^63-1 (range of the assembler's integers)",
     "not generated (manual silent or contradictory): strings and character constants as arguments of floating "
     "point fields and DT, 5-8 character constants in 64 bit fields, two-character constants in PIC DATA and in "
     "AVR DATA with PACKING ON, ? in BYT/FCB/ADR/FDB, counts <= 0 for [n]/DUP/DS/DFS/RES/BSS (except DS.x 0 = "
     "align for W/L/Q/S/D), ADR/FDB at odd addresses with PADDING ON on the 6809, WORD at odd addresses with "
-    "PADDING OFF on the MSP430, NUL characters in strings (documented as not portable), literal quote "
-    "characters written as backslash-quote (the manual itself warns), DC.P, non-IEEE float formats",
+    "PADDING OFF on the MSP430, floats in the COP8 aliases WORD/ADDRW, TMS320 BYTE, NUL characters in strings "
+    "(documented as not portable), literal quote characters written as backslash-quote (the manual itself "
+    "warns), symbols as repeat/DUP/reservation counts, source lines above 230 characters, DC.P, non-IEEE "
+    "float formats (EFLOAT/BFLOAT/TFLOAT, Qxx, C3x/C4x, IBM, VAX)",
     "an out-of-range argument must yield error 1315 or 1320 (range underflow/overflow) on its line; mixing ? "
     "with constants and a float in an integer-only field must yield some error on the line",
     "after a rejected statement the program counter is unchanged (EXPECT section: 'naturally, without "
     "creating code at the erroneous places'); rejected statements are generated alone in a slot at an even "
-    "address so that no padding interferes",
+    "address so that no padding interferes; bad values behind forward symbols are generated in programs "
+    "whose rejected statements are all of that kind (errors of the first pass end the assembly)",
+    "a label on a statement that receives a padding byte is only generated in single-pass programs (known "
+    "pass livelock of property C01); runs killed by the CPU limit count as inconclusive",
+    "MESSAGE prints in every pass; the value printed last (final pass) is the one checked",
 ]
 
+FLAVOURS = ("plain", "asan")
+ASAN_EVERY = 4            # every 4th case (by source digest) is assembled with the address sanitizer build as well
 QUICK_SLOTS = (6, 26)
 THOROUGH_SLOTS = (10, 40)
 
 
 def budget(tier):
-    return dict(examples=2400 if tier == "quick" else 48000, shards=16)
+    return dict(examples=2400 if tier == "quick" else 36000, shards=16)
 
 
 def prepare(tier):
@@ -96,6 +113,16 @@ OPS = {
 DC_SIZES = [(5, "B"), (5, "W"), (4, "L"), (2, "Q"), (4, "C"), (4, "S"), (3, "D"), (4, "X"), (1, "")]
 DS_SIZES = [(3, "B"), (3, "W"), (2, "L"), (1, "Q"), (1, "S"), (1, "D"), (1, "X"), (1, "C"), (1, "")]
 ESC_STYLES = ["named", "NAMED", "dec", "hex", "HEX", "oct", "x1"]
+# other members of the same families (same pseudo instruction decoders, same address space)
+CPU_VARIANTS = {
+    "68000": ["68000", "68000", "68010", "68020", "68030", "68040"],
+    "z80": ["z80", "z80", "z180", "z80undoc", "z380"],
+    "8086": ["8086", "80186", "v30", "v35"],
+    "8051": ["8051", "8051", "8052", "80c251", "80515", "80c390"],
+    "6809": ["6809", "6809", "6309", "6811", "6801", "6800"],
+    "6502": ["6502", "65c02", "65sc02", "melps740", "huc6280"],
+    "msp430": ["msp430", "msp430x"],
+}
 
 
 def gen_int(d, bits, bad=False):
@@ -490,6 +517,52 @@ def gen_stmt(d, sim, pc, bad):
     return gen_wordy(d, sim, op, bad)
 
 
+def gen_big(d, sim, pc):
+    """one statement that lays down several hundred bytes (the manual allows up to 1 KByte per line) by means of
+    a large repeat count / DUP"""
+    fam = sim.fam
+    t = sim.t
+    units = d.int(t["bigmax"] // 3, t["bigmax"])
+    if fam in ("moto16", "moto8+16", "moto8"):
+        if fam == "moto8" or (fam == "moto8+16" and d.bool(0.5)):
+            op, sz = d.choice([("byt", 1), ("fcb", 1), ("adr", 2), ("fdb", 2), ("fcc", 1)]), ""
+            op, size = op
+            if sim.st.padding and size == 2 and (pc & 1):
+                op, size = "fcb", 1
+        else:
+            sz = d.choice(["B", "W", "L", "Q", "S", "D", "X", "C"])
+            op, size = "dc", dm.MOTO_SIZES[sz]
+        if op == "fcc" or (op in ("byt", "fcb", "dc") and size <= 4 and d.bool(0.4)):
+            a = gen_string(d, 9) if d.bool() or op == "fcc" else ["c", gen_tokens(d, d.int(size + 1, 9))]
+            if op == "dc" and sz in dm.MOTO_FLOAT:
+                a = gen_float(d, dm.MOTO_FLOAT[sz])
+            per = size * (len(a[1]) if a[0] in ("s", "c") else 1)
+        elif op == "dc" and sz in dm.MOTO_FLOAT:
+            a, per = gen_float(d, dm.MOTO_FLOAT[sz]), size
+        else:
+            a, per = gen_int(d, 8 * size), size
+        return dict(op=op, sz=sz if op == "dc" else "", args=[["rep", max(1, units // per), a]])
+    if fam in ("intel", "avr"):
+        if sim.st.tgt == "cop8":
+            return None
+        op = d.choice(["db", "dw", "dd", "dq", "dt", "dn", "dn", "db"])
+        bits = dm.INTEL_BITS[op]
+        inner = gen_intel_args(d, bits, d.int(1, 3), 1, False)
+        stmt = dict(op=op, sz="", args=[["dup", 1, inner]])
+        try:
+            one = dm.layout_len(sim.layout(stmt, pc))
+        except (Invalid, Unsettled):
+            return None
+        n = len(dm.Sim._intel_elems(sim, inner, bits)) if bits == 4 else None
+        if bits == 4:
+            cnt = max(1, (units * (2 if t["gran"] == 1 else 4)) // max(1, n))
+        else:
+            cnt = max(1, units // max(1, one))
+        stmt["args"][0][1] = cnt
+        return stmt
+    return None
+
+
 def gen_directive(d, sim):
     t = sim.t
     opts = [(4, "charset")]
@@ -526,12 +599,15 @@ def fit(sim, stmt, pc, maxlen):
         try:
             n = dm.layout_len(sim.layout(stmt, pc))
         except Invalid:
-            return stmt                      # lays down nothing
+            if len(render_stmt(stmt, sim.t["syntax"], False)) <= 230 or len(stmt["args"]) <= 1:
+                return stmt                  # lays down nothing
+            stmt["args"].pop()
+            continue
         except Unsettled:
             n = maxlen + 1                   # never leave a statement of unknown length in a slot
             stmt["args"] = stmt["args"][:1]
-        if n <= maxlen:
-            return stmt
+        if n <= maxlen and len(render_stmt(stmt, sim.t["syntax"], False)) <= 230:
+            return stmt                      # (source lines are limited to 255 characters)
         if len(stmt["args"]) > 1:
             stmt["args"].pop()
             continue
@@ -585,19 +661,27 @@ def strategy_(d, tier):
         odd = 1 if (t["gran"] == 1 and d.bool(0.3 if t.get("has_padding") else 0.1)) else 0
         pc = start + odd
         limit = start + t["slot"]
+        if t.get("bigmax") and d.bool(0.05):
+            stmt = gen_big(d, sim, pc)
+            if stmt:
+                items.append(dict(odd=odd, stmts=[fit(sim, stmt, pc, t["bigmax"])]))
+                continue
         stmts = []
         for _ in range(d.weighted([(5, 1), (4, 2), (2, 3)])):
             room = limit - pc - 2
             if room < t.get("minroom", 0x28):
                 break
             stmt = fit(sim, gen_stmt(d, sim, pc, False), pc, min(t["maxlen"], room))
+            if d.bool(0.15):
+                stmt["lab"] = 1
             stmts.append(stmt)
             try:
                 pc += dm.layout_len(sim.layout(stmt, pc))
             except (Invalid, Unsettled):
                 break
         items.append(dict(odd=odd, stmts=stmts))
-    return dict(tgt=tgt, upper=d.bool(0.3), syms=syms, items=items)
+    cpu = d.choice(CPU_VARIANTS[tgt]) if tgt in CPU_VARIANTS else t["cpu"]
+    return dict(tgt=tgt, cpu=cpu, upper=d.bool(0.3), syms=syms, items=items)
 
 
 def strategy(tier):
@@ -662,6 +746,7 @@ class Plan:
         self.masks = {}          # address -> bits that are compared (default all)
         self.dontcare = set()    # addresses not compared at all
         self.pcs = {}            # slot index -> set of acceptable program counters (absent: not checked)
+        self.labs = {}           # label name -> expected value
         self.errlines = {}       # line number -> kind of the demanded error
         self.errslot = {}        # line number -> slot index
         self.tags = []           # class labels (one per statement feature)
@@ -783,7 +868,8 @@ def analyse(case, drop_invalid):
     syntax, upper = t["syntax"], case.get("upper", False)
     pl = Plan()
     L = pl.lines
-    L.append("\tcpu\t" + t["cpu"])
+    multipass = any(f for _, f in syms)
+    L.append("\tcpu\t" + (case.get("cpu") or t["cpu"]))
     for i, (v, fwd) in enumerate(syms):
         if not fwd:
             L.append("zq%d\tequ\t%d" % (i, v))
@@ -798,6 +884,7 @@ def analyse(case, drop_invalid):
         pc = start + (it.get("odd") or 0)
         L.append("\torg\t" + dm.render_int(pc, "h", syntax))
         settled = True
+        labs = []
         stmts = it["stmts"]
         for si, stmt in enumerate(stmts):
             pl.nstmts += 1
@@ -821,7 +908,22 @@ def analyse(case, drop_invalid):
                 pl.unsettled += 1
                 pl.tags.append("unsettled-statement")
                 elems = None
-            L.append(render_stmt(stmt, syntax, upper))
+            text = render_stmt(stmt, syntax, upper)
+            padded = bool(elems) and elems[0][0] == "pad"
+            if stmt.get("lab") and multipass and (padded or not settled):
+                # a label moved by a padding byte never converges when a second pass is needed (known pass
+                # livelock, property C01: label entered at the odd address before the fix-up)
+                pl.tags.append("label-dropped")
+            elif stmt.get("lab"):
+                name = "lb%d_%d" % (idx, si)
+                text = name + ":" + text
+                labs.append(name)
+                if settled:
+                    # PADDING: "the label still points to the address of the code or data object, i.e. right
+                    # behind the pad byte"
+                    pl.labs[name] = pc + (1 if elems and elems[0][0] == "pad" else 0)
+                    pl.tags.append("label")
+            L.append(text)
             if not settled:
                 continue
             tg, nt = stmt_tags(tgt, st, stmt, elems, pc, syms)
@@ -851,6 +953,8 @@ def analyse(case, drop_invalid):
             for a in range(pc * g, limit * g):
                 pl.dontcare.add(a)
         L.append('\tmessage\t"P%d=\\{%s}"' % (idx, t["pc"]))
+        for name in labs:
+            L.append('\tmessage\t"%s=\\{%s}"' % (name.upper(), name))
         idx += 1
     for i, (v, fwd) in enumerate(syms):
         if fwd:
@@ -861,12 +965,41 @@ def analyse(case, drop_invalid):
 # ====================================================================== execution
 
 PC_RE = re.compile(r"^P(\d+)=([0-9A-Fa-f]+)\s*$", re.M)
+LAB_RE = re.compile(r"^(LB\d+_\d+)=([0-9A-Fa-f]+)\s*$", re.M)
 
 
 def run_plan(pl):
     src = "\n".join(pl.lines) + "\n"
     r = asl.assemble({"t.asm": src}, args=("-n",))
     return src, r
+
+
+def asan_witness(src, r):
+    """second witness: the same program through the ASan+bounds build.  Returns None or a failure text.
+    (Statements that overrun the code buffer corrupt the heap silently in the plain build.)"""
+    if int(engine.digest(src), 16) % ASAN_EVERY:
+        return None
+    r2 = asl.assemble({"t.asm": src}, args=("-n",), flavour="asan", timeout=60.0)
+    if r2.timed_out or r2.signal in (24, 9):
+        return None
+    if r2.status == 77 or "AddressSanitizer" in r2.err or "runtime error" in r2.err or r2.signal:
+        m = re.search(r"(ERROR: AddressSanitizer[^\n]*|[^\n]*runtime error[^\n]*)", r2.err)
+        frames = re.findall(r"#\d+ 0x[0-9a-f]+ in (\S+) [^\n]*/([^/\n:]+:\d+)", r2.err)[:4]
+        return "sanitizer build: %s %s" % (m.group(1) if m else "signal %s status %s" % (r2.signal, r2.status),
+                                          " <- ".join("%s %s" % f for f in frames))
+    if r2.status != r.status:
+        return "sanitizer build exits with status %s, plain build with %s" % (r2.status, r.status)
+    if (r.p is None) != (r2.p is None):
+        return "sanitizer build and plain build disagree on the existence of the code file"
+    if r.p is not None:
+        try:
+            a = [x for x in r.records() if x["kind"] != "creator"]
+            b = [x for x in r2.records() if x["kind"] != "creator"]
+        except Exception:
+            return None
+        if a != b:
+            return "sanitizer build lays down different bytes than the plain build (uninitialised data?)"
+    return None
 
 
 def compare_bytes(pl, r, gran):
@@ -922,7 +1055,24 @@ def check_pcs(pl, out):
         if not seen[idx] <= acc:
             return ("program counter after slot %d is %s, expected %s"
                     % (idx, "/".join("%x" % v for v in sorted(seen[idx])), "/".join("%x" % v for v in sorted(acc))))
+    labs = {}
+    for m in LAB_RE.finditer(out):
+        labs[m.group(1).lower()] = int(m.group(2), 16)
+    for name, v in sorted(pl.labs.items()):
+        if name not in labs:
+            return "value of label %s missing from the output" % name
+        if labs[name] != v:
+            return "label %s on a data statement has the value %x, expected %x" % (name, labs[name], v)
     return None
+
+
+def _log_inconclusive(case, src):
+    """development aid: C09_LOG_INCONCLUSIVE=<file> collects the programs that hit the CPU limit"""
+    import os
+    fn = os.environ.get("C09_LOG_INCONCLUSIVE")
+    if fn:
+        with open(fn, "a") as f:
+            f.write(src + "\n;;;;;;;;\n")
 
 
 def execute(case):
@@ -940,6 +1090,9 @@ def execute(case):
     if r.timed_out:
         return engine.inconclusive("timeout", classes)
     detail = dict(run="A", status=r.status, signal=r.signal, stderr=r.err[-1500:], source=src[:6000])
+    if r.signal in (24, 9):
+        _log_inconclusive(case, src)
+        return engine.inconclusive("cpu limit", classes)       # non-termination is property C01/C03
     if r.signal:
         return engine.bad("asl killed by signal %d" % r.signal, key, classes, **detail)
     diags = asl.diagnostics(r.err)
@@ -956,6 +1109,9 @@ def execute(case):
     why = check_pcs(pa, r.out)
     if why:
         return engine.bad(why, key, classes, stdout=r.out[-800:], **detail)
+    why = asan_witness(src, r)
+    if why:
+        return engine.bad(why, key, classes, **detail)
     # run B: the statements that must be rejected
     pb = analyse(case, False)
     if pb.errlines:
@@ -964,6 +1120,9 @@ def execute(case):
         if r.timed_out:
             return engine.inconclusive("timeout", classes)
         detail = dict(run="B", status=r.status, signal=r.signal, stderr=r.err[-1500:], source=src[:6000])
+        if r.signal in (24, 9):
+            _log_inconclusive(case, src)
+            return engine.inconclusive("cpu limit", classes)
         if r.signal:
             return engine.bad("asl killed by signal %d" % r.signal, key, classes, **detail)
         diags = asl.diagnostics(r.err)
@@ -989,11 +1148,14 @@ def execute(case):
             if ln not in pb.errlines:
                 return engine.bad("error on a valid line %d `%s`: %s" % (ln, pb.lines[ln - 1].strip(), byline[ln][0]["msg"]),
                                   key, classes, **detail)
-        if r.status == 0:
+        if r.status == 0 and byline:
             return engine.bad("errors reported but exit status 0", key, classes, **detail)
         why = check_pcs(pb, r.out)
         if why:
             return engine.bad("run with rejected statements: " + why, key, classes, stdout=r.out[-800:], **detail)
+        why = asan_witness(src, r)
+        if why:
+            return engine.bad("run with rejected statements: " + why, key, classes, **detail)
         if deferred:
             return engine.bad(deferred, key, classes, **detail)
     return engine.ok(key, classes)
@@ -1112,6 +1274,88 @@ def fixed_cases(tier):
         (0, [dict(op="byt", sz="", args=[S("azAZ"), ["c", [ord("b")]]]), dict(op="adr", sz="", args=[["c", [ord("a"), ord("b")]]])]),
         (0, [dict(op="fcc", sz="", args=[["rep", 2, S("xyz")]])]),
     ], (dict(dir="charset", op=["range", 0x61, 0x7a, 0x41]),)))
+    # 20 arguments (documented maximum), forward symbols at the limits, COP8 and TMS320C25 families
+    out.append(_slotcase("68000", [(0, [dict(op="dc", sz="B", args=[I(i - 10) for i in range(20)])]),
+                                   (1, [dict(op="dc", sz="W", args=[I(i * 3000) for i in range(20)])])]))
+    for tgt, op, sz, bits in (("68000", "dc", "B", 8), ("68000", "dc", "W", 16), ("z80", "db", "", 8),
+                              ("z80", "dw", "", 16), ("z80", "dd", "", 32), ("6502", "byt", "", 8),
+                              ("6809", "fdb", "", 16), ("msp430", "byte", "", 8), ("msp430", "word", "", 16),
+                              ("16c84", "data", "", 14), ("avr", "data", "", 16), ("320c25", "word", "", 16),
+                              ("320c25", "string", "", 8), ("cop8", "addrw", "", 16), ("cop8", "fw", "", 16)):
+        lo, hi = dm.int_limits(bits)
+        vals = [lo, hi, -1, (1 << (bits - 1)), lo - 1, hi + 1, (1 << 32) + 1]
+        for fwd in (False, True):
+            c = _slotcase(tgt, [(0, [dict(op=op, sz=sz, args=([I(2)] if op == "fw" else []) + [["y", i]])])
+                                for i in range(len(vals))])
+            c["syms"] = [[v, fwd] for v in vals]
+            out.append(c)
+    out.append(_slotcase("cop8", [
+        (0, [dict(op="byte", sz="", args=[I(1), S("ab"), I(-128), I(255)])]),
+        (0, [dict(op="word", sz="", args=[I(0x1234, "h"), I(-2)]), dict(op="addrw", sz="", args=[I(0x1234, "h"), I(-2)])]),
+        (0, [dict(op="addr", sz="", args=[I(0x12, "h")]), dict(op="dsb", sz="", args=[I(3)]),
+             dict(op="dsw", sz="", args=[I(2)]), dict(op="byte", sz="", args=[I(7)])]),
+        (0, [dict(op="fb", sz="", args=[I(5), I(0xaa, "h")]), dict(op="fw", sz="", args=[I(3), I(0x1234, "h")])]),
+        (0, [dict(op="fb", sz="", args=[I(2), I(256)])]),
+    ]))
+    out.append(_slotcase("320c25", [
+        (0, [dict(op="word", sz="", args=[I(1), I(-1), I(0xffff, "h")]), dict(op="long", sz="", args=[I(0x12345678, "h"), I(-1)])]),
+        (0, [dict(op="float", sz="", args=[F(1.0), F(-2.5), I(3)]), dict(op="double", sz="", args=[F(1.0), F(1e-310)])]),
+        (0, [dict(op="string", sz="", args=[S("abc"), I(1), I(2)]), dict(op="rstring", sz="", args=[S("abc"), I(1), I(2)])]),
+        (0, [dict(op="data", sz="", args=[S("abc"), I(1), S("de"), ["c", [ord("a"), ord("b")]]]), dict(op="bss", sz="", args=[I(3)]),
+             dict(op="res", sz="", args=[I(2)]), dict(op="word", sz="", args=[I(5)])]),
+        (0, [dict(op="word", sz="", args=[I(0x100000001, "h")])]),
+        (0, [dict(op="float", sz="", args=[F(3.4028234663852886e38)])]),
+        (0, [dict(op="float", sz="", args=[F(3.5e38)])]),
+    ]))
+    # regression inputs of the defects found with this check
+    hi = ["s", [[0xe2, "hex"], ord("a"), [0x80, "dec"], [0xff, "HEX"]]]
+    out.append(_slotcase("z80", [(0, [dict(op="dw", sz="", args=[hi])]), (0, [dict(op="dd", sz="", args=[hi])]),
+                                 (0, [dict(op="dq", sz="", args=[hi])])]))
+    out.append(_slotcase("6809", [(0, [dict(op="fdb", sz="", args=[hi]), dict(op="adr", sz="", args=[["rep", 2, hi]])]),
+                                  (0, [dict(op="dc", sz="W", args=[hi]), dict(op="dc", sz="L", args=[hi])])]))
+    out.append(_slotcase("6502", [(0, [dict(op="adr", sz="", args=[S("a")])])], (dict(dir="charset", op=["one", 0x61, 0xe2]),)))
+    nine = ["c", [ord(ch) for ch in "abcdefghi"]]
+    c = _slotcase("68000", [(0, [dict(op="dc", sz="L", args=[["rep", 8, nine]])]), (0, [dict(op="dc", sz="Q", args=[["rep", 4, nine]])]),
+                            (0, [dict(op="dc", sz="W", args=[["rep", 16, nine]])]), (0, [dict(op="dc", sz="W", args=[["y", 0]])])])
+    c["syms"] = [[1, True]]
+    out.append(c)
+    out.append(_slotcase("z80", [(0, [dict(op="dw", sz="", args=[I(65536), I(1)])]), (0, [dict(op="dw", sz="", args=[F(1.0e6), I(2)])]),
+                                 (0, [dict(op="dd", sz="", args=[I(5000000000), I(2)])]), (0, [dict(op="db", sz="", args=[I(1), I(256)])])]))
+    out.append(_slotcase("avr", [(0, [dict(op="data", sz="", args=[I(65536), I(1)])]), (0, [dict(op="data", sz="", args=[I(1), I(-32769)])])]))
+    out.append(_slotcase("msp430", [(0, [dict(op="byte", sz="", args=[I(256), I(1)])]), (0, [dict(op="byte", sz="", args=[I(1), I(-129), I(2)])])]))
+    out.append(_slotcase("320c25", [(0, [dict(op="word", sz="", args=[I(1), ["f", "1.5"]])]), (0, [dict(op="string", sz="", args=[I(1), I(2), ["f", "1.5"]])])]))
+    c = _slotcase("8086", [(0, [dict(op="dn", sz="", args=[["dup", 300, [I(1)]]])]), (0, [dict(op="dw", sz="", args=[["y", 0]])]),
+                           (0, [dict(op="db", sz="", args=[["dup", 450, [I(1), I(2)]]])])])
+    c["syms"] = [[1, True]]
+    out.append(c)
+    out += exhaustive_half_cases(tier)
+    return out
+
+
+def exhaustive_half_cases(tier):
+    """every finite half precision value, every tie between two neighbours and the doubles next to each tie
+    (4 x 31744 values, alternating signs), as DW on the Z80 (quick and thorough) and, thorough only, as DC.C on
+    the 68000, DW on the 8051 with BIGENDIAN ON and DW on the AVR"""
+    F = lambda x: ["f", dm.fmt_float(x)]
+    vals = []
+    nfin = 31 << 10
+    for p in range(nfin):
+        v = float(dm.ieee_value(p, HALF))
+        sgn = -1.0 if p & 1 else 1.0
+        vals.append(sgn * v)
+        if p + 1 < nfin:
+            mid = float((dm.ieee_value(p, HALF) + dm.ieee_value(p + 1, HALF)) / 2)
+            vals += [sgn * mid, sgn * math.nextafter(mid, math.inf), -sgn * math.nextafter(mid, 0.0)]
+    plans = [("z80", "dw", "", (), 112, 50)]
+    if tier != "quick":
+        plans += [("68000", "dc", "C", (), 100, 100), ("8051", "dw", "", (dict(dir="bigendian", on=True),), 112, 50),
+                  ("avr", "dw", "", (), 20, 60)]
+    out = []
+    for tgt, op, sz, pre, per_slot, slots in plans:
+        stmts = [dict(op=op, sz=sz, args=[F(x) for x in vals[i:i + 4]]) for i in range(0, len(vals), 4)]
+        slot_list = [(0, stmts[i:i + per_slot]) for i in range(0, len(stmts), per_slot)]
+        for i in range(0, len(slot_list), slots):
+            out.append(_slotcase(tgt, slot_list[i:i + slots], pre))
     return out
 
 
